@@ -330,8 +330,49 @@ func runC11(c C11Case, ev *Evid) (fs []Finding) {
 			return
 		}
 	}
+	// later on: every source file gets a newer point, the clock has moved on, and the SAME sum-copy value is executed
+	// once more (a window "until now" means the now of each run); a fresh sum-diff must be clean again
+	laterRun := false
+	if c.Until == 0 && c.From <= now {
+		st := l.Archives[0].Step
+		now2 := now + st*int64(1+HashJSON(c)%3)
+		if now2 < 1<<32-l.MaxRet() {
+			laterRun = true
+			// (the command value of the runs above may have been rebuilt from its flags: this one is used as it is, twice)
+			same := *scc
+			var err3 error
+			pm3 := atClock(now, func() { err3 = same.Execute() })
+			if err3 == nil && pm3 == "" {
+				for _, f := range c.Files {
+					if err := modifyFile(filepath.Join(base, f.Dir, f.Name), []SlotWrite{{Arch: 0, T: now2, V: 1}}, now2); err != nil {
+						add("setup", "later write: %v", err)
+						return
+					}
+				}
+				pm3 = atClock(now2, func() { err3 = same.Execute() })
+			}
+			if err3 != nil || pm3 != "" {
+				add("later-run-fails", "sum-copy %s: the same command executed again at clock %d (after a newer point was stored in every source) failed: %v %s", desc, now2, err3, pm3)
+				return
+			}
+			d := mkDiff("later")
+			var derr error
+			dpm := atClock(now2, func() { derr = d.Execute() })
+			if dpm != "" {
+				add("sum-diff-panic", "sum-diff %s at the later clock %d: panicked: %s", desc, now2, dpm)
+				return
+			}
+			if derr != nil {
+				add("later-run-incomplete", "sum-copy %s: the same command value executed again at clock %d (after a point at t=%d was stored in every source) leaves sum-diff with: %v\n%s", desc, now2, now2, derr, tail(readText(filepath.Join(dir, "sumdiff-later.txt")), 600))
+				return
+			}
+		}
+	}
 	nontrivial := preEqual > 0 && preDiffer > 0 && nanInSum > 0
 	cls := []string{}
+	if laterRun {
+		cls = append(cls, "executed-again-later")
+	}
 	for i := range items {
 		cls = append(cls, "dest="+c.DestModes[i%len(c.DestModes)])
 	}
@@ -388,7 +429,7 @@ func TestC11(t *testing.T) {
 	RunProperty(t, Property[C11Case]{
 		NoteCases:   true,
 		ID:          "C11",
-		Rule:        "rapid-generated trees as in C10 (one layout, exactly summable values, NaN holes) x destination per item absent / fresh / copy of the first source file / unrelated content / equal to the sum in every coarser archive only; windows and archive selection as in C08; at a controlled clock: sum-copy, then the destination of every item is compared slot by slot (NaN included) with an independently computed sum, created files must carry the requested header, sum-diff must be clean, a repeated sum-copy must not change a byte; then 0-3 destination slots are perturbed through the library and sum-diff must report 'diff found' iff some slot deviates and list exactly the deviating slots of the first item. Non-trivial: a pre-existing destination with >=1 equal and >=1 differing slot and >=1 NaN in the sum. Distinct = hash of the case.",
+		Rule:        "rapid-generated trees as in C10 (one layout, exactly summable values, NaN holes) x destination per item absent / fresh / copy of the first source file / unrelated content / equal to the sum in every coarser archive only; windows and archive selection as in C08; at a controlled clock: sum-copy, then the destination of every item is compared slot by slot (NaN included) with an independently computed sum, created files must carry the requested header, sum-diff must be clean, a repeated sum-copy must not change a byte; then 0-3 destination slots are perturbed through the library and sum-diff must report 'diff found' iff some slot deviates and list exactly the deviating slots of the first item. Finally (window until now) every source gets a newer point, and the SAME sum-copy value is executed once more at a later clock: a fresh sum-diff must be clean again. Non-trivial: a pre-existing destination with >=1 equal and >=1 differing slot and >=1 NaN in the sum. Distinct = hash of the case.",
 		Assumptions: []string{"Z5: sum-diff with a missing side is not asserted", "cases whose item or file pattern matches nothing are C10's (discarded here)"},
 		Gen:         genC11,
 		Run:         runC11,
